@@ -44,13 +44,72 @@ void cv_must_fail(void) { __CPROVER_assert(0, "Must() condition holds (checkValu
  *      decimal digit run; true iff >= 1 digit and the exact value fits int64; then v = exact value, end = just past the
  *      digits; outputs untouched on failure. Each call is logged in ghosts so that the postconditions can refer to
  *      "the number that was parsed where". */
+#if defined(CV_ABS_MODELS) && !defined(T_MODELS_AGREE)
+#define CV_ABS_NAME cv_httpHeaderParseOffset
+#define CV_REL_NAME cv_httpHeaderParseOffset_rel        /* unused in these targets */
+#elif defined(T_MODELS_AGREE)
+#define CV_ABS_NAME cv_httpHeaderParseOffset_abs
+#define CV_REL_NAME cv_httpHeaderParseOffset
+#else
+#define CV_REL_NAME cv_httpHeaderParseOffset
+#endif
 int g_calls;
 const char *g_start[MAXCALLS];
 _Bool g_ok[MAXCALLS];
 long g_v[MAXCALLS];
 const char *g_end[MAXCALLS];
 
-int cv_httpHeaderParseOffset(const char *start, long *offPtr, char **endPtr)
+/* ---- context of the contract-based targets: the one field-value buffer of the harness. The contract models below are written
+ *      over ABSOLUTE (constant) positions of this buffer, so that the specification loops read constant indices and the
+ *      formula stays linear in N; every model asserts ("model:") that its pointers do lie in this buffer. */
+const char *cv_buf;        /* base of the buffer */
+size_t cv_total;           /* its bytes [0, cv_total) are arbitrary, cv_buf[cv_total] == 0 is the terminator (last byte of the block) */
+
+#ifdef CV_ABS_MODELS
+/* The SAME assumed contract of httpHeaderParseOffset as below (skip isspace, optional sign, maximal decimal digit run; true iff
+ * >= 1 digit and the exact value fits int64; v exact; end just past the digits), evaluated in one pass over the constant
+ * positions of cv_buf instead of symbolic ones, with a saturating 64-bit accumulator (w = min(exact value, 2^64-1)) instead of
+ * 128-bit products. Target models_agree checks that the two formulations give identical results. */
+int CV_ABS_NAME(const char *start, long *offPtr, char **endPtr)
+{
+    __CPROVER_assert(__CPROVER_same_object(start, cv_buf) && start >= cv_buf && (size_t)(start - cv_buf) <= cv_total,
+                     "model: httpHeaderParseOffset model: the string starts inside the harness buffer");
+    const size_t o = (size_t)(start - cv_buf);
+    int ph = 0;                                  /* 0 skipping isspace, 1 at the optional sign, 2 in the digits, 3 done */
+    _Bool neg = 0;
+    size_t nd = 0, e = o;
+    unsigned long w = 0;
+    for (size_t k = 0; k <= N; k++)
+        if (ph < 3 && k >= o && k <= cv_total) {
+            const char c = cv_buf[k];
+            _Bool consumed = 0;
+            if (ph == 0) { if (c == ' ' || (c >= 9 && c <= 13)) consumed = 1; else ph = 1; }
+            if (ph == 1 && !consumed) { ph = 2; if (c == '-') { neg = 1; consumed = 1; } else if (c == '+') consumed = 1; }
+            if (ph == 2 && !consumed) {
+                if (c >= '0' && c <= '9') {
+                    const unsigned d = (unsigned)(c - '0');
+                    /* w*10 + d > 2^64-1  <=>  w > 1844674407370955161 or (w == 1844674407370955161 and d > 5) */
+                    if (w > 1844674407370955161UL || (w == 1844674407370955161UL && d > 5)) w = 0xffffffffffffffffUL;
+                    else w = w * 10 + d;
+                    nd++;
+                } else { ph = 3; e = k; }        /* the terminator cv_buf[cv_total] == 0 stops the run at the latest */
+            }
+        }
+    __CPROVER_assert(ph == 3, "model: httpHeaderParseOffset model: the string is terminated inside the harness buffer");
+    const unsigned long lim = neg ? (1UL << 63) : (1UL << 63) - 1;
+    const _Bool ok = nd > 0 && w <= lim;
+    const long v = neg ? (long)(0 - w) : (long)w;
+    __CPROVER_assert(g_calls < MAXCALLS, "model: no more than MAXCALLS numbers are parsed");
+    g_start[g_calls] = start; g_ok[g_calls] = ok; g_v[g_calls] = ok ? v : 0; g_end[g_calls] = cv_buf + e;
+    g_calls++;
+    if (!ok) return 0;
+    *offPtr = v;
+    if (endPtr) *endPtr = (char *)cv_buf + e;
+    return 1;
+}
+#endif
+
+int CV_REL_NAME(const char *start, long *offPtr, char **endPtr)
 {
     size_t i = 0;
     for (size_t k = 0; k < N; k++)
@@ -90,18 +149,30 @@ static char *make_value(size_t *totalp)
     __CPROVER_assume(buf != NULL);
     buf[total] = 0;
     *totalp = total;
+    cv_buf = buf; cv_total = total;              /* context of the absolute-index contract models */
     return buf;
 }
+
+static long spec_findDigits(size_t from, size_t to, int relaxed);
+static _Bool spec_goodSuffix(size_t from, size_t to, int relaxed);
 
 /* ---- postconditions of checkValue(raw, size) as a transition of (value, sawBad, needsSanitizing, sawGood) ----
  * `call` = index of the parse-log entry this token must have produced (if it got that far) */
 static void post_checkvalue(const struct st *o, const struct st *n, int r, const char *raw, int size, int relaxed, int call)
 {
     /* reference reading of the token: OWS, then a digit */
+#ifdef CV_SLICED
+    /* contract-based target: the same reading, phrased with the specification function that is also findDigits' contract
+     * (raw == cv_buf here); the bounded targets keep the independent phrasing below on the real code end to end */
+    __CPROVER_assert(raw == cv_buf, "model: the token starts the harness buffer");
+    const int i0 = (int)spec_findDigits(0, (size_t)size, relaxed);
+    const _Bool prefix_ok = i0 >= 0;
+#else
     int i0 = -1;
     for (int k = 0; k < N; k++)
         if (i0 < 0 && k < size && !spec_ws(raw[k], relaxed)) i0 = k;
     const _Bool prefix_ok = i0 >= 0 && spec_digit(raw[i0]);
+#endif
     _Bool good = 0;
     long v = -1;
     if (prefix_ok) {
@@ -111,8 +182,12 @@ static void post_checkvalue(const struct st *o, const struct st *n, int r, const
         _Bool suffix_ok = 1;
         const long e = g_end[call] - raw;
         __CPROVER_assert(!g_ok[call] || (e > i0 && e <= size), "lemma: the number ends inside the token (the byte after the token is not a digit)");
+#ifdef CV_SLICED
+        suffix_ok = spec_goodSuffix((size_t)e, (size_t)size, relaxed);    /* = goodSuffix' contract; e >= 0 */
+#else
         for (int k = 0; k < N; k++)
             if (k >= e && k < size && !spec_delim(raw[k], relaxed)) suffix_ok = 0;
+#endif
         good = g_ok[call] && v >= 0 && suffix_ok;
     } else {
         __CPROVER_assert(g_calls == call, "ensures: a token that does not start (after OWS) with a digit is never parsed as a number");
@@ -143,6 +218,129 @@ static void post_checkvalue(const struct st *o, const struct st *n, int r, const
     __CPROVER_assert(!(n->sawGood && !n->sawBad) || (good && n->value == v), "ensures: a usable length is the decimal number of this token");
 }
 
+/* ==== CONTRACTS of findDigits(prefix, valueEnd) and goodSuffix(suffix, end) =========================================
+ * Written as specification functions over the byte range [from, to) of the harness buffer cv_buf (prefix = cv_buf + from,
+ * valueEnd = cv_buf + to), with the RFC 7230 classes above.  They are used twice:
+ *   - targets finddigits_proof / goodsuffix_proof VERIFY the real body texts (cut from the repo on every run into C-linkage
+ *     functions, loops closed by loop invariants, no unwinding) against them, for every range of up to N bytes;
+ *   - target checkvalue_contracts verifies the real checkValue with the two calls REPLACED by these same contracts
+ *     (cv_contract_*: assert the requires, return what the specification function says).
+ * requires (both): the two pointers point into / one past the same object, and the bytes between them are readable.
+ * findDigits ensures: result = the first byte of [prefix, valueEnd) that is not OWS, provided it is a digit; NULL if there is no
+ *   such byte or it is not a digit.   goodSuffix ensures: result <=> every byte of [suffix, end) is a delimiter (true for an
+ *   empty range and for suffix > end: the loop does not run).  Neither writes memory (harness mode: no frame check; the
+ *   bodies contain no store through a pointer -- see not_covered). */
+static long spec_findDigits(size_t from, size_t to, int relaxed)     /* position in cv_buf, or -1 for NULL */
+{
+    long r = -1;
+    _Bool stop = 0;
+    for (size_t k = 0; k < N; k++)
+        if (!stop && k >= from && k < to) {
+            if (spec_digit(cv_buf[k])) { r = (long)k; stop = 1; }
+            else if (!spec_ws(cv_buf[k], relaxed)) stop = 1;
+        }
+    return r;
+}
+static _Bool spec_goodSuffix(size_t from, size_t to, int relaxed)
+{
+    _Bool ok = 1;
+    for (size_t k = 0; k < N; k++)
+        if (k >= from && k < to && !spec_delim(cv_buf[k], relaxed)) ok = 0;
+    return ok;
+}
+
+#ifdef CV_SLICED
+const char *cv_findDigits(const char *prefix, const char *valueEnd, int relaxed);   /* wrap.cc: sets Config, runs the body text */
+int cv_goodSuffix(const char *suffix, const char *end, int relaxed);
+/* ghosts named by the loop invariants (loops.json) */
+size_t cv_from, cv_to;
+int cv_relaxed;
+
+/* the contracts as call models (used by checkvalue_contracts through the member definitions in wrap.cc) */
+int g_fd_calls, g_gs_calls;                 /* how often each contract was used */
+const char *cv_contract_findDigits(const char *prefix, const char *valueEnd, int relaxed)
+{
+    __CPROVER_assert(__CPROVER_same_object(prefix, cv_buf) && __CPROVER_same_object(valueEnd, cv_buf) && prefix >= cv_buf,
+                     "model: findDigits contract model: the range lies in the harness buffer");
+    __CPROVER_assert(prefix <= valueEnd && __CPROVER_r_ok(prefix, (size_t)(valueEnd - prefix)),
+                     "requires (findDigits contract, at the call site): prefix <= valueEnd and [prefix, valueEnd) is readable");
+    g_fd_calls++;
+    const long r = spec_findDigits((size_t)(prefix - cv_buf), (size_t)(valueEnd - cv_buf), relaxed);
+    return r < 0 ? (const char *)0 : cv_buf + r;
+}
+int cv_contract_goodSuffix(const char *suffix, const char *end, int relaxed)
+{
+    __CPROVER_assert(__CPROVER_same_object(suffix, cv_buf) && __CPROVER_same_object(end, cv_buf) && suffix >= cv_buf && end >= cv_buf,
+                     "model: goodSuffix contract model: the range lies in the harness buffer");
+    __CPROVER_assert(suffix > end || __CPROVER_r_ok(suffix, (size_t)(end - suffix)),
+                     "requires (goodSuffix contract, at the call site): [suffix, end) is readable");
+    g_gs_calls++;
+    return spec_goodSuffix((size_t)(suffix - cv_buf), (size_t)(end - cv_buf), relaxed);
+}
+#endif
+
+#if defined(T_FINDDIGITS)
+/* findDigits' body text against its contract: every range [from, to) with to <= N inside a block of EXACTLY `to` bytes (so a
+ * read at or behind valueEnd is an out-of-bounds read); no terminator is needed or present */
+void h_finddigits(void)
+{
+    size_t from, to;
+    int relaxed;
+    __CPROVER_assume(from <= to && to <= N);
+    __CPROVER_assume(relaxed == -1 || relaxed == 0 || relaxed == 1);
+    char *buf = malloc(to);
+    __CPROVER_assume(buf != NULL);
+    cv_buf = buf; cv_total = to; cv_from = from; cv_to = to; cv_relaxed = relaxed;
+    const char *r = cv_findDigits(buf + from, buf + to, relaxed);
+    const long want = spec_findDigits(from, to, relaxed);
+#ifdef TWIN_FD
+    __CPROVER_assert(!(want >= 0) || r != buf + want, "ensures: TWIN (negated) findDigits result");
+#else
+    __CPROVER_assert(want >= 0 ? r == buf + want : r == NULL,
+                     "ensures: findDigits returns the first non-OWS byte of [prefix, valueEnd) if it is a digit, else NULL");
+#endif
+    __CPROVER_assert(r == NULL || (r >= buf + from && r < buf + to && spec_digit(*r)), "ensures: a non-NULL result points at a digit inside the range");
+#ifdef REACH
+    __CPROVER_assert(!(r != NULL && r == buf + from + 3), "reach: three OWS bytes, then a digit");
+    __CPROVER_assert(!(r != NULL && relaxed != 0 && buf[from] == '\r'), "reach: relaxed: CR skipped");
+    __CPROVER_assert(!(r == NULL && to - from >= 3 && want < 0 && spec_ws(buf[to - 1], relaxed) && spec_ws(buf[from], relaxed)), "reach: NULL (whitespace only or garbage after whitespace)");
+    __CPROVER_assert(!(r == NULL && relaxed == 0 && buf[from] == '\r'), "reach: strict: CR is garbage");
+    __CPROVER_assert(!(r == NULL && from == to), "reach: empty range");
+    __CPROVER_assert(!(r != NULL && to == N && r == buf + N - 1), "reach: digit in the last byte of a maximal range");
+#endif
+}
+#endif
+
+#if defined(T_GOODSUFFIX)
+void h_goodsuffix(void)
+{
+    size_t from, to;
+    int relaxed;
+    __CPROVER_assume(from <= N && to <= N);
+    __CPROVER_assume(relaxed == -1 || relaxed == 0 || relaxed == 1);
+    const size_t size = from > to ? from : to;      /* block of exactly max(from, to) bytes */
+    char *buf = malloc(size);
+    __CPROVER_assume(buf != NULL);
+    cv_buf = buf; cv_total = size; cv_from = from; cv_to = to; cv_relaxed = relaxed;
+    const int r = cv_goodSuffix(buf + from, buf + to, relaxed);
+#ifdef TWIN_GS
+    __CPROVER_assert((r != 0) != spec_goodSuffix(from, to, relaxed), "ensures: TWIN (negated) goodSuffix result");
+#else
+    __CPROVER_assert((r != 0) == spec_goodSuffix(from, to, relaxed),
+                     "ensures: goodSuffix returns true exactly when every byte of [suffix, end) is a delimiter");
+#endif
+#ifdef REACH
+    __CPROVER_assert(!(r != 0 && from == to), "reach: empty suffix");
+    __CPROVER_assert(!(r != 0 && from > to), "reach: suffix behind end (no byte examined)");
+    __CPROVER_assert(!(r != 0 && to - from == 4 && from < to), "reach: four delimiters");
+    __CPROVER_assert(!(r == 0 && to - from >= 3 && from < to && buf[from] == ' ' && buf[to - 1] == ' '), "reach: garbage between delimiters");
+    __CPROVER_assert(!(r != 0 && relaxed != 0 && from < to && buf[from] == '\t'), "reach: relaxed: HTAB is a delimiter");
+    __CPROVER_assert(!(r == 0 && relaxed == 0 && from < to && buf[from] == '\t'), "reach: strict: HTAB is not");
+    __CPROVER_assert(!(r != 0 && from == 0 && to == N), "reach: maximal range of delimiters");
+#endif
+}
+#endif
+
 #if defined(T_CHECKVALUE)
 void h_checkvalue(void)
 {
@@ -161,9 +359,18 @@ void h_checkvalue(void)
     __CPROVER_assume(st_inv(&o));                                      /* requires: object invariant */
     struct st n = o;
     g_calls = 0;
+#ifdef CV_SLICED
+    g_fd_calls = 0; g_gs_calls = 0;
+#endif
     int r = cv_checkValue(&n.value, &n.sawBad, &n.needsSanitizing, &n.sawGood, &n.problem, buf, size, relaxed);
     post_checkvalue(&o, &n, r, buf, size, relaxed, 0);
+#ifdef CV_SLICED
+    __CPROVER_assert(g_fd_calls == 1 && g_gs_calls <= 1, "ensures: checkValue uses findDigits exactly once and goodSuffix at most once");
+#endif
 #ifdef REACH
+#ifdef CV_SLICED
+    __CPROVER_assert(!(r != 0 && g_gs_calls == 1 && size == N && buf[0] == ' ' && buf[N - 1] == ' '), "reach: maximal token accepted through both contracts");
+#endif
     __CPROVER_assert(!(r != 0 && n.value > 99999 && size == (int)total), "reach: first good value, several digits, token is the whole value");
     __CPROVER_assert(!(r != 0 && buf[0] == ' ' && buf[size - 1] == ' '), "reach: good value with leading and trailing space");
     __CPROVER_assert(!(r != 0 && relaxed != 0 && buf[0] == '\r'), "reach: relaxed: leading CR accepted");
@@ -175,6 +382,61 @@ void h_checkvalue(void)
     __CPROVER_assert(!(n.sawBad && g_calls == 0 && size == 0), "reach: empty token");
     __CPROVER_assert(!(n.sawBad && g_calls == 0 && buf[0] == '-'), "reach: sign-led token");
 #endif
+}
+#endif
+
+#if defined(T_MODELS_AGREE)
+/* the two formulations of the ASSUMED httpHeaderParseOffset contract (relative/symbolic positions with 128-bit products, used by
+ * the bounded targets; absolute positions with a saturating accumulator, used by checkvalue_contracts) give identical results
+ * (a) on every terminated buffer of up to SYM bytes and every start position, (b) on concrete corner strings around the int64
+ * and uint64 boundaries.  Specification-level cross-check, no real code; the general equivalence for long digit strings is NOT
+ * machine-checked (equivalence of a 128-bit product chain and a saturating 64-bit chain did not finish in 10 min at 22 bytes). */
+int cv_httpHeaderParseOffset_abs(const char *start, long *offPtr, char **endPtr);
+static void agree_at(const char *start, int corner)
+{
+    long v0;
+    long v1 = v0, v2 = v0;
+    char *e1 = 0, *e2 = 0;
+    g_calls = 0;
+    const int r1 = cv_httpHeaderParseOffset(start, &v1, &e1);
+    const int r2 = cv_httpHeaderParseOffset_abs(start, &v2, &e2);
+#ifdef TWIN_AGREE
+    __CPROVER_assert(corner || g_end[0] != g_end[1], "ensures: TWIN (negated) same end position");
+#else
+    __CPROVER_assert(r1 == r2 && v1 == v2 && e1 == e2, "ensures: both formulations return the same result, value and end pointer");
+    __CPROVER_assert(g_calls == 2 && g_ok[0] == g_ok[1] && g_v[0] == g_v[1] && g_end[0] == g_end[1] && g_start[0] == g_start[1],
+                     "ensures: both formulations log the same parse (ok, value, end)");
+#endif
+}
+static void agree_corner(const char *lit, size_t len, int ok, long v, size_t end)
+{
+    cv_buf = lit; cv_total = len;
+    agree_at(lit, 1);
+    __CPROVER_assert(g_ok[1] == ok && (!ok || g_v[1] == v) && g_end[1] == lit + end, "ensures: corner string parsed as expected");
+}
+void h_models_agree(void)
+{
+    size_t total;
+    char *buf = make_value(&total);
+    size_t o;
+    __CPROVER_assume(total <= SYM && o <= total);
+    agree_at(buf + o, 0);
+#ifdef REACH
+    __CPROVER_assert(!(g_ok[0] && g_v[0] < -99 && buf[o] == ' '), "reach: negative number after whitespace");
+    __CPROVER_assert(!(!g_ok[0] && g_end[0] == g_start[0] + 1 && buf[o] == '+'), "reach: sign without digits");
+    __CPROVER_assert(!(g_ok[0] && g_v[0] == 12345), "reach: plain number");
+#endif
+    agree_corner("9223372036854775807", 19, 1, 0x7fffffffffffffffL, 19);
+    agree_corner("9223372036854775808", 19, 0, 0, 19);
+    agree_corner("-9223372036854775808", 20, 1, -0x7fffffffffffffffL - 1, 20);
+    agree_corner("-9223372036854775809", 20, 0, 0, 20);
+    agree_corner("18446744073709551615", 20, 0, 0, 20);
+    agree_corner("18446744073709551616", 20, 0, 0, 20);
+    agree_corner("1844674407370955161600000", 25, 0, 0, 25);
+    agree_corner("0000000000000000000000042x", 26, 1, 42, 25);
+    agree_corner(" \t\n+0012 3", 10, 1, 12, 8);
+    agree_corner("-", 1, 0, 0, 1);
+    agree_corner("", 0, 0, 0, 0);
 }
 #endif
 
